@@ -1,7 +1,7 @@
-(* Property C06 — a rejected operation leaves the configuration exactly as it was
+(* Property C06 — a rejected operation leaves the configuration exactly as it was (assignments, constructor keywords, maps to sub-configurations, single items of lists of configurations, documents that do not parse: reject_unchanged / set_value_err; single items of typed lists and dicts: rejected_single_unchanged / drejected_single_unchanged; an include that cannot be resolved never yields a tree to load: include_must_exist)
    Property theorems only: every statement is proved in the *Lemmas files. *)
 From Coq Require Import ZArith NArith String List Bool.
-From Cinco Require Import Base Config ConfigLemmas.
+From Cinco Require Import Base Config ConfigLemmas ListModel ListModelLemmas DictModel DictModelLemmas Tree TreeLemmas.
 Import ListNotations.
 
 Theorem C06_reject_unchanged :
@@ -13,4 +13,19 @@ Theorem C06_set_value_err :
   forall (F : Type) (lvalidate lto_python : F -> pyval -> res pyval) (ldefault : F -> N -> pyval) (lcallable lflag : F -> bool) (vrun : N -> list (str * pyval) -> bool) (x : pyval) (w : world) (pre : str) (c : cfg) (fs : list (str * node F)) (dyn : bool) (k : str) (rl : bool) (w' : world) (c' : cfg) (o : oc), set_value F lvalidate lto_python ldefault lcallable lflag vrun x w pre c fs dyn k rl = (w', c', o) -> o <> OOk -> c' = c.
 Proof. exact set_value_err. Qed.
 Print Assumptions C06_set_value_err.
+
+Theorem C06_rejected_single_unchanged :
+  forall (V : pyval -> res pyval) (tg : N) (s : list pyval) (op : lop), match op with | LAppend _ | LInsert _ _ | LSetItem _ _ => True | _ => False end -> accepted V s op = false -> fst (proxy_step V tg s op) = s.
+Proof. exact rejected_single_unchanged. Qed.
+Print Assumptions C06_rejected_single_unchanged.
+
+Theorem C06_drejected_single_unchanged :
+  forall (VK VV : pyval -> res pyval) (tg : N) (s : pairs) (op : dop), match op with | DSetItem _ _ | DSetDefault _ _ => True | _ => False end -> daccepted VK VV s op = false -> fst (proxy_dstep VK VV tg s op) = s.
+Proof. exact drejected_single_unchanged. Qed.
+Print Assumptions C06_drejected_single_unchanged.
+
+Theorem C06_include_must_exist :
+  forall (load_file : N -> pyval -> res (list (str * tree))) (k : str) (fid : N) (doc : list (str * tree)) (fname : pyval) (e : errk), tget k doc = Some (TLeaf fname) -> fname <> PNone -> load_file fid fname = Err e -> process load_file (ISchema [(k, fid)] []) doc = Err e.
+Proof. exact include_must_exist. Qed.
+Print Assumptions C06_include_must_exist.
 
